@@ -1581,6 +1581,7 @@ int EGLPNUM_TYPENAME_ILLlib_delrows (
 		}
 
 		cnt[i] -= dk;
+		qslp->nzcount -= dk;
 		if (cnt[i] == 0)
 		{
 			ind[beg[i]] = 1;					/* we always mark the empty cols */
@@ -1803,6 +1804,7 @@ static int delcols_work (
 			{
 				ind[beg[i] + k] = -1;
 			}
+			qslp->nzcount -= cnt[i];
 			newcolindex[i] = -1;
 		}
 	}
